@@ -94,7 +94,8 @@ impl Src {
                 t.insert("big".into(), Node::file(b"XXXXxxxxXX", T0 + 121));
             }
             2 => {
-                t.insert("big".into(), Node::file(b"XXXXyyyyYY", T0 + 122));
+                // (stamped in the year 2100: ahead of any clock this runs under)
+                t.insert("big".into(), Node::file(b"XXXXyyyyYY", 4_102_444_800 + 122));
             }
             _ => {}
         }
